@@ -91,6 +91,15 @@ CHECKS["C20"] = dict(
           "before/after snapshots around every public function."),
     design="6/C20", technique="Coq invariant proof over operation histories + AST translator re-checked by vm_compute + exhaustive short histories")
 
+CHECKS["C06"] = dict(
+    text=("Theorems over R about the Gallina model of the five operators (guards inactive): the triangle gradient equals the gradient of "
+          "the linear interpolant (spec of C01), is the projection of a for affine data; both triangle divergences are the negative "
+          "adjoint per element for EVERY field X; assembled: sum_i f_i div(X)_i = -sum_t area_t X_t.grad_t f for all f, X, meshes; "
+          "entries of div sum to zero; div(grad g) = -A g with the stiffness of C01; tets (after fix e9245f1): gradient = interpolant "
+          "gradient for either orientation, exact on affine data, element adjointness with the orientation sign. Tet assembly, "
+          "dispatchers and dtype handling are tied by correspondence + oracles."),
+    design="6/C06", technique="Coq proof over R (ring/field identities, scatter pairing lemma) + vm_compute correspondence")
+
 NOT_YET = {}
 
 
